@@ -9,7 +9,7 @@ NUL = B("null")
 WORDS = ["range", "token", "label", "content", "version", "language", "pattern", "scheme", "folder", "symbol", "value", "detail", "selection", "document", "workspace", "provider", "support", "options", "offset", "severity", "message", "source", "target", "origin", "context", "trigger", "filter", "format", "encoding", "position", "identifier", "resolve", "dynamic", "registration", "capability", "snippet", "preview", "annotation", "metadata", "revision"]
 KW = ["class", "from", "import", "lambda", "global", "pass", "with", "yield", "async", "in", "is", "not", "def", "del", "try"]
 MIXINS = ["WorkDoneProgressParams", "PartialResultParams", "StaticRegistrationOptions", "TextDocumentPositionParams"]
-OPS = ("E1", "E2", "E3", "E4", "E5", "E6", "E7", "E8", "E9", "E10", "E11", "E12")
+OPS = ("E1", "E2", "E3", "E4", "E5", "E6", "E7", "E8", "E9", "E10", "E11", "E12", "E13")
 
 
 def camel(ws):
@@ -326,18 +326,38 @@ class Evo:
         does in the committed model."""
         for _ in range(30):
             base = self.r.choice(self.structs())
+            if mode == "denull":
+                pool = [x["name"] for x in self.d["structures"] if x["name"] in self.structs() and any(q_["type"]["kind"] == "or" and NUL in q_["type"]["items"] and len(q_["type"]["items"]) == 2 for q_ in x["properties"])]
+                if not pool:
+                    return
+                base = self.r.choice(pool)
             inherited = {}
             st = [x for x in self.d["structures"] if x["name"] == base][0]
             for p in st["properties"]:
                 inherited[p["name"]] = p
             cands = [p for p in inherited.values() if p["type"]["kind"] == "base" and p["type"]["name"] in ("string", "integer", "uinteger", "boolean")]
-            if not cands:
+            if not cands and mode != "denull":
                 continue
-            p = self.r.choice(cands)
-            nm = self.name(True)
-            q = {"name": p["name"], "type": copy.deepcopy(p["type"])}
+            p = self.r.choice(cands) if cands else None
+            nm = None
+            q = None
+            if mode == "denull":
+                # narrow an inherited null-admitting (or literal) property to an optional non-null one
+                na = [q_ for q_ in st["properties"] if q_["type"]["kind"] == "or" and NUL in q_["type"]["items"] and len(q_["type"]["items"]) == 2]
+                if not na:
+                    continue
+                p = self.r.choice(na)
+                inner = [i for i in p["type"]["items"] if i != NUL][0]
+                nm = self.name(True)
+                self.d["structures"].append({"name": nm, "properties": [{"name": p["name"], "type": copy.deepcopy(inner), "optional": True}], "extends": [R(base)]})
+                self.new_structs.append(nm)
+                self.touched.add(nm)
+                self.log.append("E8 %s extends %s redeclares %s (denull)" % (nm, base, p["name"]))
+                return
             if mode == "literal" and p["type"]["name"] != "string":
                 continue
+            nm = self.name(True)
+            q = {"name": p["name"], "type": copy.deepcopy(p["type"])}
             mode = mode or self.r.choice(["optionality", "literal" if p["type"]["name"] == "string" else "optionality", "nullable"])
             if mode == "optionality":
                 if not p.get("optional"):
@@ -402,9 +422,14 @@ class Evo:
             ]}}
 
         props = [
+            # special properties of the structure itself, declared BEFORE the literal-typed ones
+            {"name": "sessionToken", "type": {"kind": "or", "items": [B("string"), NUL]}},
+            {"name": "variantKind", "type": {"kind": "stringLiteral", "value": "verif-variant"}},
             {"name": "anchorDetail", "type": lit()},
             {"name": "targetItems", "type": {"kind": "array", "element": lit()}, "optional": True},
             {"name": "scopeChoice", "type": {"kind": "or", "items": [lit(), NUL]}},
+            {"name": "listChoice", "type": {"kind": "or", "items": [{"kind": "array", "element": lit()}, NUL]}},
+            {"name": "clientDetail", "type": lit(), "optional": True},
         ]
         self.d["structures"].append({"name": nm, "properties": props})
         self.new_structs.append(nm)
@@ -431,16 +456,49 @@ class Evo:
         self.log.append("E12 %s references %d open enumerations" % (nm, len(opens)))
         self.static_only = True
 
+    def E13(self):
+        """one new property of every listed type kind, in an optional and a required flavour."""
+        nm = self.name(True)
+        st_ = R(self.r.choice(self.structs()))
+        en_ = R(self.r.choice(self.closed_enums()))
+        kinds = {
+            "Text": B("string"), "Count": B("uinteger"), "Offset": B("integer"), "Ratio": B("decimal"), "Flag": B("boolean"), "Link": B("DocumentUri"),
+            "Ref": st_, "Kind": en_,
+            "Items": {"kind": "array", "element": B("string")}, "RefItems": {"kind": "array", "element": st_},
+            "Table": {"kind": "map", "key": B("string"), "value": st_}, "UriTable": {"kind": "map", "key": B("DocumentUri"), "value": B("uinteger")},
+            "Pair": {"kind": "tuple", "items": [B("uinteger"), B("uinteger")]}, "MixedPair": {"kind": "tuple", "items": [B("uinteger"), B("string")]},
+            "MaybeRef": {"kind": "or", "items": [st_, NUL]}, "MaybeCount": {"kind": "or", "items": [NUL, B("uinteger")]},
+            "MaybeItems": {"kind": "or", "items": [{"kind": "array", "element": st_}, NUL]},
+        }
+        props = []
+        for suffix, t in kinds.items():
+            props.append({"name": "required" + suffix, "type": copy.deepcopy(t)})
+            props.append({"name": "optional" + suffix, "type": copy.deepcopy(t), "optional": True})
+        self.d["structures"].append({"name": nm, "properties": props})
+        self.new_structs.append(nm)
+        self.touched.add(nm)
+        self.log.append("E13 %s: every type kind x {required, optional}" % nm)
+
     def E6(self, both=False):
         sec = self.r.choice(["structures", "enumerations", "typeAliases", "requests", "notifications"])
         node = self.r.choice(self.d[sec])
         if self.r.random() < 0.4 and sec == "structures" and node["properties"]:
             node = self.r.choice(node["properties"])
         if both:
+            # hostile but legal mark texts on a structure, a property and an enumeration value
+            cands = [x for x in self.d["structures"] if x["properties"] and x["name"] not in self.hot]
+            st_ = self.r.choice(cands)
+            en_ = self.r.choice(self.d["enumerations"])
+            for tgt, since in ((st_, "3.18.0\r\n- extended in 3.19"), (self.r.choice(st_["properties"]), "3.18.0\rmore"), (self.r.choice(en_["values"]), "3.18.0\r\nvalue")):
+                tgt["since"] = since
+                tgt["deprecated"] = "no longer\r\nsupported, use \"x\""
+            self.touched.add(st_["name"])
             # every mark at once on one node (marks must compose, not shadow each other)
             node["proposed"] = True
-            node["deprecated"] = "superseded"
-            node["since"] = "3.18.0"
+            node["deprecated"] = self.r.choice(["superseded", "use x\ninstead \"quoted\"", "no longer\r\nsupported"])
+            node["since"] = self.r.choice(["3.18.0", "3.18.0\r\n- extended in 3.19", "3.18.0\rmore"])
+            if self.r.random() < 0.5:
+                node["sinceTags"] = ["3.17.0\r\nfirst", "3.18.0"]
             node.setdefault("documentation", "Doc.")
         else:
             self.marks(node)
